@@ -52,6 +52,28 @@ def writeAll (st : WState) : List PV → Option (WState × List Bytes)
     let (st2, f2) ← writeAll st1 os
     pure (st2, f1 ++ f2)
 
+/-- `RecordStreamWriter.write(obj)` RAISING while `obj` is packed, after `k` of its descriptors were met: the header
+    (if this was the first write) and the frames of the newly registered descriptors are on the stream, the object's
+    frame is not; the packer keeps the registrations. -/
+def writeFailed (st : WState) (obj : PV) (k : Nat) : Option (WState × List Bytes) :=
+  let header := if st.headerWritten then [] else [magicBody]
+  let r := newDescs st.registry ((descsOf obj).take k)
+  match r.2.mapM (fun d => (toM (.desc d)).map enc) with
+  | some dframes => some ({ headerWritten := true, registry := r.1 }, header ++ dframes)
+  | none => none
+
+/-- a history of writes on one writer, each succeeding (`none`) or raising after `k` descriptors (`some k`) -/
+def writeHist (st : WState) : List (PV × Option Nat) → Option (WState × List Bytes)
+  | [] => some (st, [])
+  | (o, none) :: os => do
+    let (st1, f1) ← write st o
+    let (st2, f2) ← writeHist st1 os
+    pure (st2, f1 ++ f2)
+  | (o, some k) :: os => do
+    let (st1, f1) ← writeFailed st o k
+    let (st2, f2) ← writeHist st1 os
+    pure (st2, f1 ++ f2)
+
 def streamOf (frames : List Bytes) : Bytes := frames.flatMap frameBytes
 
 /-! ### abstract frame view (C03): what a history of writes emits and what a reader makes of it,
@@ -72,6 +94,26 @@ def emitAll (reg : Registry) : List PV → Registry × List AFrame
   | o :: os =>
     let r1 := emit reg o
     let r2 := emitAll r1.1 os
+    (r2.1, r1.2 ++ r2.2)
+
+/-- A write that RAISES while the object is being packed (a value msgpack refuses, e.g. text with a lone surrogate):
+    the descriptors met before the failing value — a prefix of `descsOf o`, `k` of them — were registered and their
+    frames written by the registration callback; no object frame follows. -/
+def emitFailed (reg : Registry) (o : PV) (k : Nat) : Registry × List AFrame :=
+  let r := newDescs reg ((descsOf o).take k)
+  (r.1, r.2.map AFrame.desc)
+
+/-- a history of writes, each succeeding (`none`) or raising after `k` descriptors were met (`some k`); the caller
+    carries on with the same writer -/
+def emitHist (reg : Registry) : List (PV × Option Nat) → Registry × List AFrame
+  | [] => (reg, [])
+  | (o, none) :: os =>
+    let r1 := emit reg o
+    let r2 := emitHist r1.1 os
+    (r2.1, r1.2 ++ r2.2)
+  | (o, some k) :: os =>
+    let r1 := emitFailed reg o k
+    let r2 := emitHist r1.1 os
     (r2.1, r1.2 ++ r2.2)
 
 /-- the reader on abstract frames: descriptor frames are registered; for every object frame, the descriptors with
